@@ -209,6 +209,14 @@ func (p *Path) readElemAt(o *Object, upto int, idx *Term) *Term {
 		switch e.kind {
 		case logStore:
 			c := tc.Eq(e.idx, idx)
+			if !c.IsConst() && !(e.idx.IsConst() && idx.IsConst()) {
+				switch p.implied(c) {
+				case 1:
+					c = tc.True
+				case -1:
+					c = tc.False
+				}
+			}
 			if c.IsTrue() {
 				result = e.val
 			} else if !c.IsFalse() {
@@ -216,6 +224,15 @@ func (p *Path) readElemAt(o *Object, upto int, idx *Term) *Term {
 			}
 		case logCopy, logFill:
 			c := tc.And(tc.Ule(e.idx, idx), tc.Ult(idx, tc.BvAdd(e.idx, e.n)))
+			if !c.IsConst() {
+				// solver-aided pruning: is the index provably inside / outside this range?
+				switch p.implied(c) {
+				case 1:
+					c = tc.True
+				case -1:
+					c = tc.False
+				}
+			}
 			if c.IsFalse() {
 				continue
 			}
@@ -451,3 +468,40 @@ func (p *Path) store(ptr *PtrV, v Value) {
 // copyValue deep-copies aggregate values (struct/array values are immutable in
 // our representation, so sharing is fine; this is the identity).
 func copyValue(v Value) Value { return v }
+
+// implied asks the solver whether the path condition (and merge guard) decides c:
+// +1 if it implies c, -1 if it implies not c, 0 otherwise. Results are cached;
+// they stay valid because the path condition only grows.
+func (p *Path) implied(c *Term) int {
+	if p.noSolverSimp {
+		return 0
+	}
+	if p.impliedMemo == nil {
+		p.impliedMemo = map[[2]int]int{}
+	}
+	gid := 0
+	if p.guard != nil {
+		gid = p.guard.ID
+	}
+	key := [2]int{c.ID, gid}
+	if r, ok := p.impliedMemo[key]; ok && r != 0 {
+		return r
+	}
+	q := c
+	nq := p.tc.Not(c)
+	if p.guard != nil {
+		q = p.tc.And(p.guard, c)
+		nq = p.tc.And(p.guard, nq)
+	}
+	res := 0
+	if r, _, _ := p.solver.CheckWith(q, nil); r == Unsat {
+		res = -1
+	} else if r == Sat {
+		if r2, _, _ := p.solver.CheckWith(nq, nil); r2 == Unsat {
+			res = 1
+		}
+	}
+	p.st.SimpQueries++
+	p.impliedMemo[key] = res
+	return res
+}
